@@ -115,12 +115,14 @@ CHECKS["C05"] = dict(
          "over any stream are the run lengths of its input (candles without input neither extend nor break the run). Theorem (engine, "
          "reals): the threshold flag is False without a sigma reading and otherwise True exactly when |x[i]-x[i-1]| > multiplier*sigma. "
          "Theorem (analysis model, reals): highest/lowest - the building blocks of Donchian and Highest/Lowest - return an element of the "
-         "window of number-like readings that bounds every element of it. "
+         "window of number-like readings that bounds every element of it; the rolling update of the stored mean and variance is exact "
+         "(algebraic identity) and the standard-deviation reading is the square root of exactly that updated variance; Bollinger = "
+         "SMA +/- 2 sigma and Keltner = EMA +/- multiplier*ATR as assembled from the helper readings. "
          "All eleven indicators of the property are tied by the bit-exact engine "
          "correspondence and compared with independent reference implementations (presence exactly, values within a stated tolerance).",
-    note="TR, ATR, Counter, the threshold rule and the window extremes have theorems; STDEV (and the sigma the threshold reads), the "
-         "assembly of BBANDS, KC, Donchian, HL, HLA, Supertrend from their parts are decided by correspondence + reference falsifier "
-         "(single-reading band relations are in C10). Real-number axioms as for C04 (none for the Counter theorem).",
+    note="TR, ATR, Counter, the threshold rule, the window extremes, the rolling-variance update and the band assemblies have theorems; "
+         "that the stored mean/variance ARE those of the window along a whole stream (the identity iterated, with the helper's "
+         "rounding), Donchian/HL/HLA assembly and Supertrend's ratchet are decided by correspondence + reference falsifier. Real-number axioms as for C04 (none for the Counter theorem).",
     technique="Coq proof over R + vm_compute correspondence + reference falsifier", design="5/C05")
 CHECKS["C06"] = dict(
     text="Theorems: RSI = 100 - 100/(1+gain/loss) lies in [0,100] and is 100 when the average loss is 0, Wilder's averages stay >= 0 "
